@@ -29,16 +29,27 @@ import (
 //	X signed by B under another signing context
 //	Y hash type field changed      E empty signed message
 //	P signed by C, claims B, C's public key attached to the signature object
-const alphabet = "HTSFCXYEP"
+//	R the signature object and sender of the most recent honest message of the
+//	  script (an honest message the relay saw, if there is none) over OTHER data
+const alphabet = "HTSFCXYEPR"
 
 // sigCtx is the signing context of signaling session messages (copied from
 // signaling/rpc/signaling.go: the forger knows it).
 const sigCtx = "bifrost/signaling/rpc session msg 2024-06-05T02:45:07.208906Z"
 
-func craft(s *sigh.S2, kind byte, i int) (*signaling.SessionMsg, string) {
+func craft(s *sigh.S2, kind byte, i int, lastHonest *signaling.SessionMsg) (*signaling.SessionMsg, string) {
 	id := fmt.Sprintf("%c%d", kind, i)
 	seq := uint64(i + 1)
 	switch kind {
+	case 'R':
+		src := lastHonest
+		if src == nil {
+			src = s.PartnerMsg("Hx", 77, "B", "B", false, false)
+		}
+		m := src.CloneVT()
+		m.Seqno = seq
+		m.SignedMsg.Data = []byte(id)
+		return m, id
 	case 'H':
 		return s.PartnerMsg(id, seq, "B", "B", false, false), id
 	case 'T':
@@ -77,12 +88,16 @@ func body(script string) func() {
 	return func() {
 		s := sigh.NewS2(0, 0)
 		next := 0
+		var lastHonest *signaling.SessionMsg
 		// adversarial relay: on every Init announce Opened and continue the script
 		s.Relay.Script = func(r *sigh.RefRelay, req *signaling.SessionRequest) []*signaling.SessionResponse {
 			var out []*signaling.SessionResponse
 			deliver := func() {
 				if next < len(script) {
-					m, _ := craft(s, script[next], next)
+					m, _ := craft(s, script[next], next, lastHonest)
+					if script[next] == 'H' {
+						lastHonest = m.CloneVT()
+					}
 					next++
 					out = append(out, &signaling.SessionResponse{Body: &signaling.SessionResponse_RecvMsg{RecvMsg: m}})
 				}
